@@ -49,6 +49,9 @@ pub enum Op16
     /// a broadcast and the first entity world reactor as an entity-scoped event (three tables keyed by one type).
     W4Add,
     W4Remove,
+    /// An unrelated plain component is inserted on entity `e` (it moves to an archetype that did not exist when the
+    /// reactor systems first ran). Once per entity.
+    Tag(u8),
 }
 
 pub fn all_ops16() -> Vec<Op16>
@@ -68,6 +71,7 @@ pub fn all_ops16() -> Vec<Op16>
         v.push(Op16::Despawn(e));
         v.push(Op16::WAdd(e));
         v.push(Op16::WRemoveEntityMutation(e));
+        v.push(Op16::Tag(e));
     }
     v.push(Op16::FireBroadcast);
     v.push(Op16::WRemoveBroadcast);
@@ -195,6 +199,9 @@ impl WorldReactor for WR3
     }
 }
 
+#[derive(Component)]
+struct Tag16;
+
 struct WR4;
 impl WorldReactor for WR4
 {
@@ -237,6 +244,7 @@ pub struct Model16
     pub w3_ins: u8,
     pub w3_mut: u8,
     pub w4_any: u8,
+    pub tagged: [bool; N_ENTS],
 }
 
 impl Model16
@@ -338,6 +346,7 @@ impl Model16
             Op16::W3AddMutation => { self.w3_mut += 1; }
             Op16::W3RemoveInsertion => { if self.w3_ins > 0 { self.w3_ins -= 1; } }
             Op16::W3RemoveMutation => { if self.w3_mut > 0 { self.w3_mut -= 1; } }
+            Op16::Tag(e) => { if self.alive[e as usize] { self.tagged[e as usize] = true; } }
             Op16::W4Add => { self.w4_any += 1; }
             Op16::W4Remove => { if self.w4_any > 0 { self.w4_any -= 1; } }
             Op16::Despawn(e) =>
@@ -346,6 +355,7 @@ impl Model16
                 self.alive[ei] = false;
                 self.has_comp[ei] = false;
                 self.tracked[ei] = false;
+                self.tagged[ei] = false;
                 for ri in 0..2 { self.regs[ri][ei] = [0, 0]; self.local[ri][ei] = None; }
                 self.w_entmut[ei] = 0;
             }
@@ -372,6 +382,7 @@ impl Model16
             Op16::W2AddB => self.w2_b < 2,
             Op16::W3AddMutation => self.w3_mut < 2,
             Op16::W4Add => self.w4_any < 2,
+            Op16::Tag(e) => self.alive[e as usize] && !self.tagged[e as usize],
             Op16::Despawn(e) => self.alive[e as usize],
             _ => true,
         }).collect()
@@ -502,6 +513,7 @@ pub fn run16(hist: &[Op16]) -> StepResult<Key16>
                 Op16::W3RemoveMutation => { world.syscall((), |mut c: Commands, reactor: Reactor<WR3>| { reactor.remove(&mut c, mutation::<CA>()); }); }
                 Op16::W4Add => { world.syscall((), |mut c: Commands, reactor: Reactor<WR4>| { reactor.add(&mut c, any_entity_event::<EvA>()); }); }
                 Op16::W4Remove => { world.syscall((), |mut c: Commands, reactor: Reactor<WR4>| { reactor.remove(&mut c, any_entity_event::<EvA>()); }); }
+                Op16::Tag(e) => { if let Ok(mut em) = world.get_entity_mut(ents[e as usize]) { em.insert(Tag16); } }
                 Op16::Despawn(e) => { world.try_despawn(ents[e as usize]); }
                 Op16::WAdd(e) =>
                 {
